@@ -54,6 +54,9 @@ def run_shard(ctx):
     L = layout()
     q = ctx.quick()
     ctx.run_plain(lambda: synthetic_part(ctx, 7 if q else 9), "synthetic")
+    from .common import primitive_sweep
+
+    ctx.run_plain(lambda: primitive_sweep(ctx, L, lambda t, data, ok: judge_c08(ctx, L, t, None, False, data, "primitive-sweep", value_only=not ok)), "primitive-sweep")
     ctx.run_given(gen.messages(L), lambda c: size_faults(ctx, L, c), ctx.share(300 if q else 6000), name="size-faults")
     ctx.run_given(st.tuples(gen.messages(L), st.data()), lambda ex: value_faults(ctx, L, ex), ctx.share(2500 if q else 40000), name="value-faults")
     ctx.run_given(arb.faulted_input(L), lambda x: judge_c08(ctx, L, x[0], x[1], x[2], x[3], x[4]), ctx.share(8000 if q else 150000), name="faulted")
